@@ -3,6 +3,7 @@
 package main
 
 import (
+	estakingtypes "github.com/elys-network/elys/x/estaking/types"
 	"fmt"
 
 	"cosmossdk.io/math"
@@ -53,6 +54,7 @@ type SceneOpts struct {
 	LevPerBlock  int64
 	UserFunds    string
 	EdenPerYear  string // masterchef LP incentive (0 = none)
+	StakeEdenPerYear string // estaking staker incentive (Eden per year; part of it goes to the provider reward account)
 	BurnEpoch    string // burner epoch identifier ("" = the default, which matches no epoch)
 	NoMetadata   []string // assets the scene registers NO bank denom metadata for (the burner must never touch them)
 	Registry     bool   // project the parameter registry (extended specification) at every observation point
@@ -150,6 +152,12 @@ func (c *Chain) SetupScene(o SceneOpts) {
 		lp := a.LeveragelpKeeper.GetParams(ctx)
 		lp.NumberPerBlock = o.LevPerBlock
 		a.LeveragelpKeeper.SetParams(ctx, &lp)
+	}
+	if o.StakeEdenPerYear != "" {
+		ep := a.EstakingKeeper.GetParams(ctx)
+		amt, _ := math.NewIntFromString(o.StakeEdenPerYear)
+		ep.StakeIncentives = &estakingtypes.IncentiveInfo{EdenAmountPerYear: amt}
+		a.EstakingKeeper.SetParams(ctx, ep)
 	}
 	if o.EdenPerYear != "" {
 		mp := a.MasterchefKeeper.GetParams(ctx)
